@@ -683,3 +683,12 @@ Example glue_warnings :
   /\ contact_tfm_warns None (frame_of ex_g (hmc 2)) = false
   /\ contact_tfm_warns (Some ([[1; 1]], [[1; 1]])) (frame_of ex_g (hmc 2)) = true.
 Proof. vm_compute. repeat split; reflexivity. Qed.
+
+(* the HMC frame stored in another order images alike; N_hmc * max|I_hmc| = N_fmc * max|I_fmc| *)
+Example glue_permuted_frame :
+  contact_tfm NumQ (DataReal NumQ) Nearest 12 1 0 0 WDefault ex_grid ex_probe 1 None (frame_of ex_g [(1, 1); (0, 1); (0, 0)]%nat)
+  = Some [166 # 3; 166 # 3]
+  /\ maximum_intensity_in_area NumQ (fun _ => false) (abs_real NumQ) [166 # 3; 166 # 3] None = Some (166 # 3)
+  /\ maximum_intensity_in_area NumQ (fun _ => false) (abs_real NumQ) [83 # 2; 83 # 2] None = Some (83 # 2)
+  /\ Qeq_bool (3 * (166 # 3)) (4 * (83 # 2)) = true.
+Proof. vm_compute. repeat split; reflexivity. Qed.
